@@ -943,4 +943,102 @@ class WorkerStart(Unit):
                                  cleanups[0][1][0] == self.loop_exc if ok and len(cleanups[0][1]) == 1 else z3.BoolVal(False),
                                  z3.If(V.isinst(self.loop_exc, 'KeyboardInterrupt'), z3.BoolVal(k in ('normal', 'return')), z3.And(z3.BoolVal(k == 'raise'), p == self.loop_exc if k == 'raise' else z3.BoolVal(False)))))
 
-UNITS_BATCH = [WorkerInit, WorkerStart, GetInputBatch, BatchGetInput, BatchMain, BuildBatches, BuildBatchesNoPre]
+class SimpleQueueInit(Unit):
+    """_SimpleProcessQueue.__init__ / _SimpleThreadQueue.__init__: the queue's read lock `_rlock` is RE-ENTRANT (the batch collector holds it across several
+    q_in.get() calls, and get() takes it again: with a plain Lock the collector would deadlock on its first get), made AFTER the base constructor (which installs a
+    plain lock) and -- for the process queue -- from the same context as the queue (default MP_SPAWN_CTX)."""
+    prop = 'C09'
+    file = F
+    qual = '_SimpleProcessQueue.__init__'
+    process = True
+    canaries = (('plain (non re-entrant) read lock', 'self._rlock = ctx.RLock()', 'self._rlock = ctx.Lock()', ''),
+                ('re-entrant lock overwritten by the base constructor', '        super().__init__(ctx=ctx)\n        # Replace Lock by RLock to facilitate batching via greedy `get_many`.\n        self._rlock = ctx.RLock()',
+                 '        self._rlock = ctx.RLock()\n        super().__init__(ctx=ctx)', ''))
+
+    def setup(self, ex):
+        st = St()
+        self.me = Rec(ex, 'self')
+        st.ghost['ev'] = ()
+        self.given = z3.Bool('ctx_given')
+        unit = self
+
+        class Ctx(Rec):
+            pass
+
+        def mk(kind, owner):
+            def f(e, s, a, k, n):
+                s = s.fork()
+                lock = Rec(e, kind, immutable=True)
+                lock.kind, lock.owner = kind, owner
+                s.ghost['ev'] = s.ghost['ev'] + (('lock', kind),)
+                return [('ok', s, lock)]
+            return Fn(f)
+        self.caller_ctx = Rec(ex, 'caller ctx', immutable=True, methods={'RLock': mk('RLock', 'caller'), 'Lock': mk('Lock', 'caller')})
+        self.spawn_ctx = Rec(ex, 'MP_SPAWN_CTX', immutable=True, methods={'RLock': mk('RLock', 'spawn'), 'Lock': mk('Lock', 'spawn')})
+        ex.globals['MP_SPAWN_CTX'] = self.spawn_ctx
+        ex.globals['threading'] = Module('threading')
+        ex.globals['threading.RLock'] = mk('RLock', 'threading')
+        ex.globals['threading.Lock'] = mk('Lock', 'threading')
+        st.env['self'] = self.me
+        return st
+
+    def run(self, override=None):
+        results = None
+        for given in ((True, False) if self.process else (None,)):
+            self._given = given
+            r = Unit.run(self, override)
+            if results is None:
+                results = r
+            else:
+                results['obligations'] += r['obligations']
+                for k, v in r['covers'].items():
+                    results['covers'].setdefault(k, []).extend(v)
+                results['paths'] += r['paths']
+                results['reached_lines'] = sorted(set(results.get('reached_lines', [])) | set(r.get('reached_lines', [])))
+                if r['status'] != 'ok':
+                    results['status'], results['error'] = r['status'], r['error']
+        return results
+
+    def on_call(self, ex, st, e, src):
+        if src == 'super().__init__':
+            def f(s, ak):
+                s = s.fork()
+                s.ghost['ev'] = s.ghost['ev'] + (('base', tuple(ak[0]), dict(ak[1])),)
+                base_lock = Rec(ex, 'Lock', immutable=True)
+                base_lock.kind, base_lock.owner = 'Lock', 'base'
+                self.me.set(s, '_rlock', base_lock)          # what the stdlib constructor installs
+                return [('ok', s, NONE)]
+            return ex.bind(ex.evargs(e, st), f)
+        return None
+
+    def post(self, ex, outs):
+        for k, s, p in outs:
+            base = [e_ for e_ in s.ghost['ev'] if e_[0] == 'base']
+            lock = unbox_handle(ex, self.me.get(s, '_rlock')) if self.me.has(s, '_rlock') else None
+            ok = k in ('normal', 'return') and len(base) == 1 and getattr(lock, 'kind', None) == 'RLock'
+            if ok and self.process:
+                want_ctx = self.caller_ctx if self._given else self.spawn_ctx
+                ok = lock.owner == ('caller' if self._given else 'spawn') and unbox_handle(ex, base[0][2].get('ctx')) is want_ctx and not base[0][1]
+            elif ok:
+                ok = lock.owner == 'threading' and not base[0][1] and not base[0][2]
+            ex.oblige(s, 'exit: base constructor called once' + (' with the context (the caller\'s, or MP_SPAWN_CTX)' if self.process else '') + '; afterwards self._rlock is a re-entrant lock'
+                         + (' of that same context' if self.process else ''), z3.BoolVal(bool(ok)))
+
+    def extra_env(self, st):
+        pass
+
+
+class SimpleProcessQueueInit(SimpleQueueInit):
+    def setup(self, ex):
+        st = super().setup(ex)
+        st.env['ctx'] = self.caller_ctx if self._given else NONE
+        return st
+
+
+class SimpleThreadQueueInit(SimpleQueueInit):
+    qual = '_SimpleThreadQueue.__init__'
+    process = False
+    canaries = (('plain (non re-entrant) read lock', 'self._rlock = threading.RLock()', 'self._rlock = threading.Lock()', ''),)
+
+
+UNITS_BATCH = [SimpleProcessQueueInit, SimpleThreadQueueInit, WorkerInit, WorkerStart, GetInputBatch, BatchGetInput, BatchMain, BuildBatches, BuildBatchesNoPre]
